@@ -22,7 +22,7 @@ PROPS = {
             "trivial": lambda op, res: res == "err" and len(op.split()[1]) < 16},
     "C07": {"shared": ["Prims"], "rule": "bip39.mn for entropy lengths 0..40 (all-zero, all-one, random) x passphrases (empty, ASCII, decomposed non-ASCII, long); bip39.seed on generated sentences, every list word, non-words before/between/after list words, separators (tab, NBSP, U+3000, invalid UTF-8), wrong counts.",
             "trivial": lambda op, res: False},
-    "C08": {"shared": ["Prims"], "gens": ["C08", "C13"], "rule": "xk histories with String->NewKeyFromString->derive again (op t), corrupted payloads with recomputed checksum (scalar 0/N/N+1, key byte 0/1/4/5, off-curve x, x>=P), wrong lengths; path grammar fuzz (empty components, +1, 1'', leading zeros, 2^31-1', 2^31', 2^32-1, 2^32, long numbers); dpath.fwd/back on boundary and random u64.",
+    "C08": {"shared": ["Prims"], "gens": ["C08", "C13", "C04"], "rule": "xk histories with String->NewKeyFromString->derive again (op t), corrupted payloads with recomputed checksum (scalar 0/N/N+1, key byte 0/1/4/5, off-curve x, x>=P), wrong lengths; path grammar fuzz (empty components, +1, 1'', leading zeros, 2^31-1', 2^31', 2^32-1, 2^32, long numbers); dpath.fwd/back on boundary and random u64.",
             "trivial": lambda op, res: False},
     "C11": {"shared": ["Prims"], "gens": ["C11", "C10", "C01", "C01J"], "rule": "ecdh on key pairs incl. searched pairs with leading-zero shared x; ecies.enc with forced tape vs Lean encryptor (byte-exact), ecies.dec of Lean- and Go-made ciphertexts, every byte position x 3 bit patterns, truncation/extension, header edits, negated ephemeral Y, wrong keys incl. N-d; cfb.enc/dec for 16/24/32-byte keys.",
             "trivial": lambda op, res: False},
